@@ -440,6 +440,24 @@ func (x *Exec) callMods(st *State, fr *Frame, c *ssa.CallCommon, out map[string]
 				return false
 			}
 		}
+		// a function-typed field or a value of a named function type with a contract of its own (see invoke)
+		if u, ok := c.Value.(*ssa.UnOp); ok && u.Op == token.MUL {
+			if fa, ok := u.X.(*ssa.FieldAddr); ok {
+				if n, ok := deref(fa.X.Type()).(*types.Named); ok {
+					fld := under(n).(*types.Struct).Field(fa.Field)
+					if spec := x.P.fieldFuncSpec(n, fld.Name()); spec != nil {
+						return x.specMods(spec, nil, out)
+					}
+				}
+			}
+		}
+		if n, ok := types.Unalias(c.Value.Type()).(*types.Named); ok {
+			if _, isSig := n.Underlying().(*types.Signature); isSig {
+				if spec := x.P.fieldFuncSpec(n, "call"); spec != nil {
+					return x.specMods(spec, nil, out)
+				}
+			}
+		}
 		return true
 	}
 	_ = bound
